@@ -935,4 +935,120 @@ theorem decodeStruct_encodeStruct (num : Nat) (fs : List Fld) (h : num + fs.leng
         have h1 := decodeUvarint_uvarint n hf (encodeStruct (num + 1) rest)
         simp only [decodeStruct, if_true, h1, hn, if_false, ih', Option.map_some]
 
+/-! ### StdTx: an optional message, a repeated fee field, then a struct tail -/
+
+theorem encodeFee_cons (c : Coin) (cs : List Coin) :
+    encodeFee (c :: cs) = 18 :: (lenPrefixed (encodeCoin c) ++ encodeFee cs) := by
+  have : fieldKey 2 2 = [18] := fieldKey_small 2 (by omega)
+  simp [encodeFee, this]
+
+theorem encodeFee_length_ge (cs : List Coin) : cs.length ≤ (encodeFee cs).length := by
+  induction cs with
+  | nil => simp [encodeFee]
+  | cons c cs ih => rw [encodeFee_cons]; simp; omega
+
+/-- the fee loop stops at the first byte that is not the key of field 2 -/
+theorem decodeFeeAux_encodeFee (cs : List Coin) (tail : Bytes) (ht : ∀ t, tail ≠ 18 :: t)
+    (ha : ∀ c ∈ cs, c.amount.natAbs < 2 ^ 255 ∧ c.denom.length < 2 ^ 64 ∧ (encodeCoin c).length < 2 ^ 64) :
+    ∀ fuel, cs.length < fuel → decodeFeeAux fuel (encodeFee cs ++ tail) = some (cs, tail) := by
+  induction cs with
+  | nil =>
+    intro fuel hf
+    cases fuel with
+    | zero => simp at hf
+    | succ f =>
+      simp only [encodeFee, List.flatMap_nil, List.nil_append]
+      cases tail with
+      | nil => simp [decodeFeeAux]
+      | cons k r =>
+        by_cases hk : k = 18
+        · subst hk; exact absurd rfl (ht r)
+        · unfold decodeFeeAux
+          split
+          all_goals first | rfl | (exfalso; simp_all)
+  | cons c cs ih =>
+    intro fuel hf
+    cases fuel with
+    | zero => simp at hf
+    | succ f =>
+      obtain ⟨h1, h2, h3⟩ := ha c List.mem_cons_self
+      rw [encodeFee_cons]
+      have e : (18 :: (lenPrefixed (encodeCoin c) ++ encodeFee cs)) ++ tail
+          = 18 :: (lenPrefixed (encodeCoin c) ++ (encodeFee cs ++ tail)) := by simp
+      rw [e]
+      simp only [decodeFeeAux, decodeLenPrefixed_lenPrefixed _ _ h3, decodeCoin_encodeCoin c h1 h2,
+        ih (fun z hz => ha z (List.mem_cons_of_mem _ hz)) f (by simpa using hf)]
+
+theorem stdTx_tail_head (t : StdTxRec) (x : Nat) (hx : x = 10 ∨ x = 18) : ∀ r, encodeStruct 3 (stdTxTail t) ≠ x :: r := by
+  intro r h
+  rcases encodeStruct_head 3 (stdTxTail t) (by simp [stdTxTail]) with e | ⟨j, u, h1, h2, e | e⟩
+  · rw [e] at h; cases h
+  · rw [e] at h; simp only [List.cons.injEq] at h; omega
+  · rw [e] at h; simp only [List.cons.injEq] at h; omega
+
+def StdTxInRange (t : StdTxRec) : Prop :=
+  t.msg.length < 2 ^ 64 ∧
+  (∀ c ∈ t.fee, c.amount.natAbs < 2 ^ 255 ∧ c.denom.length < 2 ^ 63) ∧
+  t.pk.length < 2 ^ 32 ∧ t.sig.length < 2 ^ 32 ∧ t.memo.length < 2 ^ 64 ∧
+  -(2 : Int) ^ 63 ≤ t.entropy ∧ t.entropy < (2 : Int) ^ 63
+
+theorem sigStruct_length (pk sg : Bytes) (h1 : pk.length < 2 ^ 32) (h2 : sg.length < 2 ^ 32) :
+    (encodeStruct 1 [.bytes pk, .bytes sg]).length < 2 ^ 64 := by
+  have e32 : (2:Nat) ^ 32 = 4294967296 := by decide
+  have e64 : (2:Nat) ^ 64 = 18446744073709551616 := by decide
+  have a := lenPrefixed_length_le pk (by omega)
+  have b := lenPrefixed_length_le sg (by omega)
+  simp only [encodeStruct, encodeFld, fieldKey_small 1 (by omega), fieldKey_small 2 (by omega)]
+  split <;> split <;> simp <;> omega
+
+theorem stdTxTail_ok (t : StdTxRec) (h : StdTxInRange t) : ∀ f ∈ stdTxTail t, Fld.ok f := by
+  obtain ⟨_, _, h3, h4, h5, _, _⟩ := h
+  intro f hf
+  simp only [stdTxTail, List.mem_cons, List.not_mem_nil, or_false] at hf
+  rcases hf with rfl | rfl | rfl
+  · exact sigStruct_length t.pk t.sig h3 h4
+  · exact h5
+  · exact toU64_lt _
+
+theorem decodeStdTxCore_encode (t : StdTxRec) (h : StdTxInRange t) :
+    decodeStdTxCore (encodeStdTxCore t) = some (t.msg, t.fee, stdTxTail t) := by
+  have hfee : ∀ c ∈ t.fee, c.amount.natAbs < 2 ^ 255 ∧ c.denom.length < 2 ^ 64 ∧ (encodeCoin c).length < 2 ^ 64 := by
+    intro c hc
+    obtain ⟨a, b⟩ := h.2.1 c hc
+    have e63 : (2:Nat) ^ 63 = 9223372036854775808 := by decide
+    have e64 : (2:Nat) ^ 64 = 18446744073709551616 := by decide
+    have b' : c.denom.length < 2 ^ 64 := by omega
+    have := encodeCoin_length_le c a b'
+    exact ⟨a, b', by omega⟩
+  have htail := decodeStruct_encodeStruct 3 (stdTxTail t) (by simp [stdTxTail]) (stdTxTail_ok t h)
+  have hk : (stdTxTail t).map Fld.kind = [true, true, false] := rfl
+  rw [hk] at htail
+  -- the part after the message
+  have hrest18 : ∀ r, encodeStruct 3 (stdTxTail t) ≠ 18 :: r := stdTx_tail_head t 18 (Or.inr rfl)
+  have hfeeDec := decodeFeeAux_encodeFee t.fee (encodeStruct 3 (stdTxTail t)) hrest18 hfee
+  have hrest10 : ∀ r, encodeFee t.fee ++ encodeStruct 3 (stdTxTail t) ≠ 10 :: r := by
+    intro r hr
+    cases hf : t.fee with
+    | nil => rw [hf] at hr; simp only [encodeFee, List.flatMap_nil, List.nil_append] at hr; exact stdTx_tail_head t 10 (Or.inl rfl) r hr
+    | cons c cs => rw [hf, encodeFee_cons] at hr; simp at hr
+  have step1 : decodeOptBytes 10 (encodeStdTxCore t) = some (t.msg, encodeFee t.fee ++ encodeStruct 3 (stdTxTail t)) := by
+    unfold encodeStdTxCore
+    by_cases hm : t.msg.isEmpty = true
+    · have hm' : t.msg = [] := List.isEmpty_iff.1 hm
+      simp only [encodeFld, hm, if_true, List.nil_append, hm']
+      cases hx : encodeFee t.fee ++ encodeStruct 3 (stdTxTail t) with
+      | nil => rfl
+      | cons k r =>
+        have : k ≠ 10 := fun e => hrest10 r (by rw [hx, e])
+        simp [decodeOptBytes, this]
+    · have hm2 : t.msg.isEmpty = false := by simpa using hm
+      simp only [encodeFld, hm2, Bool.false_eq_true, if_false, fieldKey_small 1 (by omega)]
+      have := decodeLenPrefixed_lenPrefixed t.msg (encodeFee t.fee ++ encodeStruct 3 (stdTxTail t)) h.1
+      simp [decodeOptBytes, this, hm2]
+  unfold decodeStdTxCore
+  rw [step1]
+  simp only []
+  rw [hfeeDec _ (by have := encodeFee_length_ge t.fee; simp; omega)]
+  simp only [htail]
+
 end Posmint.Codec
